@@ -20,6 +20,8 @@ pub struct Shared {
     pub writes: Vec<Vec<u8>>,
     /// if set, the next write fails with this error (once)
     pub write_err: Option<ErrorKind>,
+    /// if set: the number of writes still accepted; the one after them fails (once) with BrokenPipe
+    pub writes_left: Option<usize>,
     /// number of read polls that found nothing (task is parked on read)
     pub parked: bool,
     pub dropped: bool,
@@ -52,6 +54,10 @@ impl Handle {
     }
     pub fn fail_next_write(&self, kind: ErrorKind) {
         self.0.lock().unwrap().write_err = Some(kind);
+    }
+    /// the transport accepts `n` more writes and fails the next one with BrokenPipe
+    pub fn fail_write_after(&self, n: usize) {
+        self.0.lock().unwrap().writes_left = Some(n);
     }
     /// true when the consumer has drained the queue and is parked on a read
     pub fn idle(&self) -> bool {
@@ -109,6 +115,14 @@ impl AsyncWrite for MockIo {
         let mut s = self.0.lock().unwrap();
         if let Some(k) = s.write_err.take() {
             return Poll::Ready(Err(std::io::Error::from(k)));
+        }
+        match s.writes_left {
+            Some(0) => {
+                s.writes_left = None;
+                return Poll::Ready(Err(std::io::Error::from(ErrorKind::BrokenPipe)));
+            }
+            Some(n) => s.writes_left = Some(n - 1),
+            None => {}
         }
         s.writes.push(data.to_vec());
         Poll::Ready(Ok(data.len()))
